@@ -9,7 +9,7 @@ CHECKS = {
  "C13": dict(
     engine="threads_sim", level="exploration", design="DESIGN.md section 3",
     technique="deterministic simulation: real client threads stepped one at a time by a seeded baton scheduler at sys.monitoring line/instruction events; isolated-fork oracle; ddmin + JSON replay",
-    text="Seeded search over call histories and thread interleavings on shared wallet/node/generator objects: every value the public API returns under the simulated history and schedule is compared with the same request evaluated by the library on fresh objects in a freshly forked, history-free process. Sampling, not enumeration: a clean batch is evidence that no history- or schedule-dependence exists on the explored schedules (pre-emption at every line/opcode of the package's own files), not a proof.",
+    text="Seeded search over call histories and thread interleavings on shared wallet/node/generator objects: every value the public API returns under the simulated history and schedule is compared with the same request evaluated by the library on fresh objects in a freshly forked, history-free process. Pre-emption policies: Bernoulli, conflict-biased, sparse, site-uniform atomicity tests (a whole operation of another client inside a one-line window, every distinct line equally often) and operation-granular; roots include the same key material reached two ways (full wallet + private/public extended-key import) and wallet objects built mid-history. Sampling, not enumeration: a clean batch is evidence that no history- or schedule-dependence exists on the explored schedules (pre-emption at every line/instruction of the package's own code objects), not a proof; narrow races are hit with a probability per batch (DESIGN 12.6).",
     note="Trusted: CPython's sys.monitoring event order, fork() as process snapshot, the baton scheduler; pre-emption only inside btc_hd_wallet's own code objects (never inside ecdsa/hashlib/json); ecdsa fallback back end (libsecp256k1 absent). Functional bugs that are history-independent are out of scope by construction (library is its own oracle)."),
  "C01": dict(
     engine="derivation_sim", level="exploration", design="DESIGN.md section 5",
@@ -27,22 +27,22 @@ CHECKS.update({
  "C08": dict(
     engine="entropy_sim", level="exploration", design="DESIGN.md section 4",
     technique="deterministic simulation: OS entropy device, clock, pid and process-wide PRNG behind seams; seeded histories with device faults and real fork() twins; request accounting + twin equality/inequality oracles",
-    text="Seeded search over histories of fresh-wallet requests (five entry points incl. the CLI `new`) interleaved with environment events: process-wide PRNG reset to seen states, clock freeze/jumps, device epoch changes, device faults (EIO, no OS source, EAGAIN once) switched on and off, fork twins that differ only in the device stream (must differ) or in everything but the device stream (must agree), and statistical batches of 64 fresh mnemonics per length (every entropy bit varies, none coincide). A returned wallet must have obtained >= ENT bits in successful device requests; after a fault clears the next request must succeed.",
+    text="Seeded search over histories of fresh-wallet requests (five entry points incl. the CLI `new`) interleaved with environment events: process-wide PRNG reset to seen states, clock freeze/jumps, device epoch changes, device faults (EIO, no OS source, EAGAIN once) switched on and off, fork twins that differ only in the device stream (must differ) or in everything but the device stream (must agree), and statistical batches of 64 fresh mnemonics per length (every entropy bit varies, none coincide). A returned wallet must have obtained >= ENT bits in successful device requests; after a fault clears the next request must succeed; every sampled bit position of the OS bytes served for a request must matter (bit-sensitivity, evaluated from identical forked state); no run of >= 48 entropy bits may re-appear in the next wallet; environment variables seen to be read during a request are planted and the request replayed.",
     note="Trusted: the patched names (random._urandom, os.urandom, os.getrandom, open('/dev/urandom')) are the only routes to OS randomness available to the library's pure-Python code; fork() as snapshot; the repo's word list used only as a bijection. Statistical clause is reproducible per seed (device stream keyed by the run seed)."),
  "C15": dict(
     engine="cli_sim", level="exploration", design="DESIGN.md section 6",
     technique="deterministic simulation of the CLI process: in-memory VFS + stdout/stderr capture + entropy device, environment actor and I/O-fault injector at every call boundary; secret scan over every channel against the unfiltered API result",
-    text="Seeded search over --paranoia argument vectors (all five sub-commands, both networks, accounts, intervals incl. empty ones, stdout vs -f path states) run through main() in-process, fault-free and under races / I/O errors / interrupts. On every channel the process wrote (stdout, each file, stderr of served runs; complete or partial) no secret string of the unfiltered API result (raw or JSON-escaped), no token decoding to a WIF/xprv payload, no 64-hex private scalar and no >=12-word run may occur, at any nesting depth; served output must equal the harness's white-list filter of the unfiltered API result.",
+    text="Seeded search over --paranoia argument vectors (all five sub-commands, both networks, accounts, intervals incl. empty ones, stdout vs -f path states) run as module __main__ in-process, fault-free and under races / I/O errors / interrupts / process kills (whatever is on disk at the instant of the kill is scanned). On every channel the process wrote (stdout, each file, stderr of served runs; complete or partial) no secret string of the unfiltered API result (raw or JSON-escaped), no token decoding to a WIF/xprv payload, no 64-hex private scalar and no >=12-word run may occur, at any nesting depth; served output must equal the harness's white-list filter of the unfiltered API result.",
     note="Trusted: harness Base58Check/Bech32 decoders and the reference filter; in-process main() with exit-status mapping; VFS fidelity (cross-checked against real subprocesses in C20). Secrets are taken from the library's own unfiltered output for the same request (whether that output is right is C06/C20)."),
  "C19": dict(
     engine="wire_sim", level="exploration", design="DESIGN.md section 7",
     technique="deterministic simulation of a faulty byte stream: read-logging BytesIO subclass delivering seeded EOF/flip/splice/tail/crafted-length faults to a multi-message reader; strict reference parser as oracle",
-    text="Seeded search over wires carrying 1-5 scripts or varints written by the library (element lengths at every push threshold, 521 and 2^64 refusal probes) and read back message after message from one stream; fault-free wires must round-trip with standard minimal pushes and exact byte accounting, faulty wires (EOF inside varint / push length / push data / at a boundary, flips, splices, tail garbage, adversarial declared lengths) may be refused but whatever is accepted must be accepted by the strict reference parser with the same elements and byte count.",
+    text="Seeded search over wires carrying 1-5 scripts or varints written by the library (element lengths at every push threshold, 521 and 2^64 refusal probes) and read back message after message from one stream; fault-free wires must round-trip with standard minimal pushes and exact byte accounting, faulty wires (EOF inside varint / push length / push data / at a boundary, flips, splices, tail garbage, adversarial declared lengths) may be refused but whatever is accepted must be accepted by the strict reference parser with the same elements and byte count, and the parsed object itself (also extended with + / append) must serialise to the standard minimal form. Element lengths 0..521 are covered exhaustively on every quick run; scripts up to 70 KB (0xfe length prefix) and totals at the 252..256 boundary are generated.",
     note="Trusted: the harness's reference parser/serialiser; 0x4e treated as a plain opcode on both sides; zero-length elements are outside the property's domain."),
  "C20": dict(
     engine="cli_sim", level="exploration", design="DESIGN.md section 6",
     technique="deterministic simulation of the CLI process: in-memory VFS with an adversarial environment actor and I/O-fault injector scheduled at every VFS/stdout call boundary; API twin as reference model; real-subprocess fidelity cross-check",
-    text="Seeded search over argument vectors (grammar over five sub-commands and global options with values on both sides of every validator bound and eleven -f path states) executed by main() in-process on an in-memory file system, in three separately run batches: fault-free, races (another process creates a file/dir/symlink at the target or removes/chmods its parent at a chosen call boundary) and I/O errors/interrupts (ENOSPC after k bytes, EIO on write/close, EMFILE/EACCES on open, EPIPE/EIO on stdout, KeyboardInterrupt). Oracle: refused (status != 0, no wallet data on stdout, no new file) or served (status 0, output identical to json.dumps of the library API result for the same secret/network/account/interval, library-filtered under --paranoia, BIP44-shaped rows) or help; always: no inode owned by someone else is modified. One known finding (hardened address indexes for END > 2^31) is recorded, not repaired.",
+    text="Seeded search over argument vectors (grammar over five sub-commands and global options with values on both sides of every validator bound and eleven -f path states) executed by main() in-process on an in-memory file system, in three separately run batches: fault-free, races (another process creates a file/dir/symlink at the target or removes/chmods its parent at a chosen call boundary) and I/O errors/interrupts/crashes (ENOSPC after k bytes, EIO on write/close, EMFILE/EACCES on open, EPIPE/EIO on stdout write or flush, KeyboardInterrupt, process killed at a call boundary with only the file system surviving). Oracle: refused (status != 0, no wallet data on stdout, no new file) or served (status 0, output identical to json.dumps of the library API result for the same secret/network/account/interval, library-filtered under --paranoia, BIP44-shaped rows) or help; always: no inode owned by someone else is modified. One known finding (hardened address indexes for END > 2^31) is recorded, not repaired.",
     note="Trusted: VFS models the Linux semantics the CLI can observe for a non-root user (fault-free subset cross-checked against real `python -m btc_hd_wallet` subprocesses: 8 vectors per quick run, 48 per thorough run); exit-status mapping of in-process main(); the API twin is the library itself (functional correctness of generate() is C06)."),
 })
 
